@@ -298,6 +298,23 @@ def library(ctx):
         if got.shape != want.shape or not np.allclose(got, want, rtol=1e-12, atol=1e-12):
             ctx.violation(dict(kind="si", N=N), list(want.shape), list(got.shape), "PyTorchSIFrameComputer == SIFrameComputer.compute_full", tags=dict(clause="si_wrapper"))
     # dither: zero mean, std coeff, reproducible under manual_seed
+    # the ADDED noise (output minus input) is what must have zero mean and the requested standard deviation: signals
+    # other than silence (a DC offset, a sine, Gaussian noise) show whether the signal itself is left alone
+    tt = torch.arange(200000, dtype=torch.double)
+    sigs = {"zeros": torch.zeros(200000, dtype=torch.double), "dc": torch.full((200000,), 3.0, dtype=torch.double),
+            "sine": 5.0 * torch.sin(0.01 * tt), "gauss": torch.from_numpy(np.random.RandomState(7).randn(200000) * 4.0)}
+    for coeff in (0.0, 0.5, 2.0):
+        for sname, sig in sigs.items():
+            if sname == "zeros":
+                continue
+            case = dict(kind="dither", coeff=coeff, signal=sname)
+            ctx.case(case, kind="wrapper:dither_signal")
+            torch.manual_seed(99)
+            noise = pt.PyTorchDither(coeff)(sig) - sig
+            m, s_ = float(noise.mean()), float(noise.std())
+            if abs(m) > 6 * max(coeff, 1e-12) / np.sqrt(200000) + 1e-9 or abs(s_ - coeff) > 0.02 * coeff + 1e-9:
+                ctx.violation(case, [0.0, coeff], [m, s_], "PyTorchDither adds noise of zero mean and std coeff to the signal (output - input)",
+                              tags=dict(clause="dither_stats_signal"))
     for coeff in (0.0, 0.5, 2.0):
         ctx.case(dict(kind="dither", coeff=coeff), kind="wrapper:dither")
         x = torch.zeros(200000, dtype=torch.double)
